@@ -309,6 +309,7 @@ class Model:
         self.grp = S.group_of(s)
         self.cdis = [bool(c["disable"]) for c in self.cs]
         self.gdis = [bool(g["disable"]) for g in s["groups"]]
+        self.slots = S.slots(s)        # registrations in table order (differs from the command list only with aliased groups)
         self.data = {(i, k): bytearray((v["init"] + bytes(v["size"]))[:v["size"]]) for i, c in enumerate(self.cs) for k, v in enumerate(c["vars"])}
         self.pos = {}
         self.vcalls = {}
@@ -320,6 +321,9 @@ class Model:
     # ----- state helpers
     def dis(self):
         return [self.cdis[i] or self.gdis[self.grp[i]] for i in range(len(self.cs))]
+
+    def slot_dis(self):
+        return [self.cdis[i] or self.gdis[g] for i, g in self.slots]
 
     def script(self, i, fsm, kind):
         st = self.cs[i]["scripts"].get("%d%s" % (fsm, kind), [])
@@ -418,7 +422,7 @@ class Model:
     def cmd_list(self, p, cap):
         """append the command list to p.out; returns b'OK' / b'ERROR'"""
         p.listed = True
-        for i, f, text in cmd_list_lines(self.cs, self.dis(), p.nl):
+        for i, f, text in cmd_list_lines([self.cs[i] for i, g in self.slots], self.slot_dis(), p.nl):
             if len(text) >= cap:
                 return b"ERROR"
             p.out += text
@@ -579,7 +583,8 @@ class Model:
 
     def _line(self, p, body):
         cap = self.ccap
-        dis = self.dis()
+        dis = self.slot_dis()
+        scs = [self.cs[i] for i, g in self.slots]
         if up(body[0]) != 65:
             return b"ERROR"
         if len(body) < 2 or up(body[1]) != 84:
@@ -610,17 +615,18 @@ class Model:
             if up(ch) in NAMECH:
                 typed.append(up(ch))
                 n += 1
-                if any((not dis[i]) and c["implicit"] and upname(c["name"]) == bytes(typed) for i, c in enumerate(self.cs)):
+                if any((not dis[i]) and c["implicit"] and upname(c["name"]) == bytes(typed) for i, c in enumerate(scs)):
                     form = "w"
                     break
                 continue
             p.typed = bytes(typed)
             return b"ERROR"
         p.typed = bytes(typed)
-        i = resolve(self.names, dis, bytes(typed))
+        i = resolve([c["name"] for c in scs], dis, bytes(typed))
         p.form = form
         if i is None:
             return b"ERROR"
+        i = self.slots[i][0]
         p.target = i
         c = self.cs[i]
         if form == "n":
